@@ -16,10 +16,10 @@ import (
 // C11 - MAIL/RCPT arguments reach the backend exactly as sent, or are refused.
 
 type c11Case struct {
-	Mail  bool      `json:"mail"`  // MAIL (true) or RCPT
-	Verb  string    `json:"verb"`  // spelling of the verb ("MAIL", "mail", "Rcpt", ...)
-	Arg   Octets    `json:"arg"`   // everything after the verb and one space
-	Flags ref.Flags `json:"flags"` // extension flags of the server
+	Mail  bool      `json:"mail"`          // MAIL (true) or RCPT
+	Verb  string    `json:"verb"`          // spelling of the verb ("MAIL", "mail", "Rcpt", ...)
+	Arg   Octets    `json:"arg"`           // everything after the verb and one space
+	Flags ref.Flags `json:"flags"`         // extension flags of the server
 	TLS   bool      `json:"tls,omitempty"` // the connection is under (implicit) TLS: no bearing on what is well-formed or enabled
 }
 
@@ -421,7 +421,7 @@ func TestC11(t *testing.T) {
 	if !complete {
 		return
 	}
-	c11Sub.rapidCheck(t, pickTier(12000, 100000), c11Gen)
+	c11Sub.rapidCheck(t, pickTier(12000, 200000), c11Gen)
 	_ = time.Now
 }
 
